@@ -56,6 +56,8 @@ type zzC10Univ struct {
 	Far       int      `json:"far"`
 	ReqHosts  []string `json:"reqhosts"`
 	StatHosts []string `json:"stathosts"`
+	// LeaseT is the configured lease time in clock ticks of zzC10Tick.
+	LeaseT int `json:"leaset"`
 
 	seed    int64
 	ipOf    map[int]netip.Addr
@@ -74,6 +76,11 @@ var (
 )
 
 const zzC10PoolBase = 100
+
+// zzC10Tick is the real duration of one clock tick of the specification.  It
+// is far longer than the life of any server under test (seconds), so the wall
+// time that passes while the harness runs never moves a lease to another tick.
+const zzC10Tick = 10 * time.Minute
 
 func (u *zzC10Univ) init(seed int64) {
 	u.seed = seed
@@ -193,14 +200,15 @@ func (u *zzC10Univ) alphabet() (acts []zzC10Act) {
 	for _, a := range u.Pool {
 		acts = append(acts, zzC10Act{Name: "Expire", A: a})
 	}
-	acts = append(acts, zzC10Act{Name: "Restart"})
+	acts = append(acts, zzC10Act{Name: "Tick"}, zzC10Act{Name: "Restart"})
 
 	return acts
 }
 
 // ------------------------------------------------------------ observations
 
-// zzC10L is an abstract lease: mac, address, 2*static+acknowledged, host.
+// zzC10L is an abstract lease: mac, address, remaining ticks of the
+// acknowledged life (0 = offered or expired, -1 = static), host.
 type zzC10L struct {
 	Mac  string
 	IP   int
@@ -248,6 +256,8 @@ func zzC10Key(ls []zzC10L) (k string) {
 type zzC10Reply struct {
 	K  string `json:"k"`
 	IP int    `json:"ip"`
+	// T is the lease time a DHCPACK announces, in ticks.
+	T int `json:"t"`
 }
 
 // zzC10Obs is the projection of the real server after a step.
@@ -324,7 +334,7 @@ func (y *zzC10Sys) start() (err error) {
 			SubnetMask:    zzC10Mask,
 			RangeStart:    u.ipOf[u.Pool[0]],
 			RangeEnd:      u.ipOf[u.Pool[len(u.Pool)-1]],
-			LeaseDuration: 3600,
+			LeaseDuration: uint32(time.Duration(u.LeaseT) * zzC10Tick / time.Second),
 		},
 	}
 	s, err := Create(conf)
@@ -373,6 +383,10 @@ func (y *zzC10Sys) packet(req *dhcpv4.DHCPv4) (r zzC10Reply, err error) {
 	if yi := resp.YourIPAddr; yi != nil && !yi.IsUnspecified() {
 		ip, _ := netip.AddrFromSlice(yi.To4())
 		r.IP = y.u.aIP(ip)
+	}
+	if r.K == "ack" && parsed.MessageType() == dhcpv4.MessageTypeRequest {
+		// What the client now believes: usable for this long.
+		r.T = zzC10Ticks(resp.IPAddressLeaseTime(0))
 	}
 
 	return r, nil
@@ -522,6 +536,27 @@ func (y *zzC10Sys) exec(a zzC10Act) (r zzC10Reply, err error) {
 		y.srv.onNotify(LeaseChangedDBStore)
 
 		return zzC10Reply{K: "-"}, nil
+	case "Tick":
+		// One tick passes for everybody: the server compares expiry instants
+		// with time.Now, so moving the instants of the running leases back by
+		// a tick is the same as waiting for a tick.  (Leases that are not
+		// running stay as they are: offered ones have the zero instant.)
+		found := false
+		now := time.Now()
+		y.s4.leasesLock.Lock()
+		for _, l := range y.s4.leases {
+			if !l.IsStatic && l.Expiry.After(now) {
+				l.Expiry = l.Expiry.Add(-zzC10Tick)
+				found = true
+			}
+		}
+		y.s4.leasesLock.Unlock()
+		if !found {
+			return r, fmt.Errorf("tick: no running lease")
+		}
+		y.srv.onNotify(LeaseChangedDBStore)
+
+		return zzC10Reply{K: "-"}, nil
 	case "Restart":
 		return zzC10Reply{K: "-"}, y.start()
 	default:
@@ -532,12 +567,18 @@ func (y *zzC10Sys) exec(a zzC10Act) (r zzC10Reply, err error) {
 func (y *zzC10Sys) absLease(l *dhcpsvc.Lease, now time.Time) (a zzC10L) {
 	a = zzC10L{Mac: y.u.aMAC(l.HWAddr), IP: y.u.aIP(l.IP), Host: y.u.aHost(l.Hostname)}
 	if l.IsStatic {
-		a.F = 3
+		a.F = -1
 	} else if l.Expiry.After(now) {
-		a.F = 1
+		// Remaining life in ticks; a running lease has at least one.
+		a.F = max(zzC10Ticks(l.Expiry.Sub(now)), 1)
 	}
 
 	return a
+}
+
+// zzC10Ticks rounds a duration to clock ticks.
+func zzC10Ticks(d time.Duration) (n int) {
+	return int((d + zzC10Tick/2) / zzC10Tick)
 }
 
 // abs projects the real server onto the spec's state and checks the mutual
@@ -685,6 +726,7 @@ type zzC10Out struct {
 	Dst  string
 	K    string
 	IP   int
+	T    int
 }
 
 type zzC10Node struct {
@@ -728,7 +770,7 @@ var zzC10Defaults = map[string][]string{
 func zzC10ParseOuts(raw []any) (outs []zzC10Out) {
 	for _, r := range raw {
 		t := r.([]any)
-		o := zzC10Out{Same: t[0].(bool), K: t[2].(string), IP: int(t[3].(float64))}
+		o := zzC10Out{Same: t[0].(bool), K: t[2].(string), IP: int(t[3].(float64)), T: int(t[4].(float64))}
 		if !o.Same {
 			ls := []zzC10L{}
 			for _, x := range t[1].([]any) {
@@ -815,7 +857,7 @@ func zzC10LoadGraph(t testing.TB, hdr *zzC10Hdr) (g *zzC10Graph) {
 func (n *zzC10Node) enabled(a zzC10Act) (outs []zzC10Out, ok bool) {
 	outs, listed := n.edges[a.key()]
 	switch a.Name {
-	case "Expire":
+	case "Expire", "Tick":
 		return outs, listed && len(outs) > 0
 	case "AddStatic":
 		if n.noadd {
@@ -861,8 +903,11 @@ func zzC10Admits(a zzC10Act, src string, outs []zzC10Out, r zzC10Reply, post *zz
 
 func zzC10ReplyOK(a zzC10Act, o zzC10Out, r zzC10Reply, post *zzC10Obs) (ok bool) {
 	switch o.K {
-	case "offer", "ack":
+	case "offer":
 		return r.K == o.K && r.IP == o.IP
+	case "ack":
+		// The announced lease time is what the table must then hold.
+		return r.K == o.K && r.IP == o.IP && r.T == o.T
 	case "refuse":
 		return r.K == "none" || r.K == "nak"
 	case "any":
@@ -1469,18 +1514,22 @@ func zzC10Pick(u *zzC10Univ, rng *rand.Rand, cur *zzC10Obs) (a zzC10Act) {
 		} else {
 			a.M, a.A = pickMac(), reqAddrs[rng.Intn(len(reqAddrs))]
 		}
-	case x < 76:
-		a.Name = "Expire"
+	case x < 78:
+		// Time: mostly one tick for everybody (so that leases are renewed
+		// early, late and not at all), sometimes one lease runs out alone.
 		cands := []int{}
 		for _, l := range cur.Ls {
-			if l.F == 1 {
+			if l.F > 0 {
 				cands = append(cands, l.IP)
 			}
 		}
-		if len(cands) == 0 {
+		switch {
+		case len(cands) == 0:
 			a.Name, a.M = "Discover", pickMac()
-		} else {
-			a.A = cands[rng.Intn(len(cands))]
+		case x < 71:
+			a.Name, a.A = "Expire", cands[rng.Intn(len(cands))]
+		default:
+			a.Name = "Tick"
 		}
 	case x < 84:
 		a.Name, a.M = "AddStatic", pickMac()
@@ -1552,7 +1601,7 @@ func TestZZVerifC10Trace(t *testing.T) {
 			a := zzC10Pick(u, rng, cur)
 			r, xerr := y.exec(a)
 			if xerr != nil {
-				if a.Name == "Expire" {
+				if a.Name == "Expire" || a.Name == "Tick" {
 					continue
 				}
 				t.Fatalf("run %d step %d %v: %v", run, step, a, xerr)
